@@ -272,7 +272,8 @@ pub fn cmd_sweep_c07(args: &[String]) {
     let stride: usize = args[4].parse().unwrap();
     let mut rng = Rng::new(seed ^ 0xc07);
     let mut rep = Report::new();
-    for len in 0..=maxlen {
+    // every length up to maxlen, then lengths around the 4 KiB / 8 KiB / 64 KiB marks (chunked code paths start there)
+    for len in (0..=maxlen).chain([4095usize, 4096, 4097, 8191, 8192, 8193, 16383, 16384, 16385, 65535, 65536, 65537].iter().copied()) {
         let fillers: [Vec<u8>; 3] = [rng.bytes(len), vec![0xffu8; len], vec![0u8; len]];
         let key32: [u8; 32] = rng.arr();
         let key16: [u8; 16] = rng.arr();
@@ -635,8 +636,8 @@ pub fn cmd_sweep_c13(args: &[String]) {
     let mut rep = Report::new();
     // box key pairs from seeds of every length 0..=128: sk = SHA-512(seed)[..32], pk = base * sk; libsodium's own for 32
     for len in 0..=128usize {
-        for round in 0..3 {
-            let s = if round == 0 { vec![0xffu8; len] } else { rng.bytes(len) };
+        for round in 0..4 {
+            let s = if round == 0 { vec![0xffu8; len] } else if round == 3 { vec![0u8; len] } else { rng.bytes(len) };
             let mut h = [0u8; 64];
             unsafe { so::crypto_hash_sha512(h.as_mut_ptr(), s.as_ptr(), len as u64) };
             let want_sk = a32(&h);
@@ -649,7 +650,9 @@ pub fn cmd_sweep_c13(args: &[String]) {
             }
             rep.case(&format!("boxseed|{}|{}", len, round));
             let (pk, sk) = cb::crypto_box_seed_keypair(&s);
+            // output buffers that already hold something: zeros, or the seed itself (a cache from an earlier derivation)
             let (mut pk2, mut sk2) = ([0u8; 32], [0u8; 32]);
+            if round == 1 { let n = len.min(32); sk2[..n].copy_from_slice(&s[..n]); pk2 = [0x3cu8; 32]; }
             cb::crypto_box_seed_keypair_inplace(&mut pk2, &mut sk2, &s);
             let kp: dryoc::dryocbox::KeyPair = dryoc::keypair::KeyPair::from_seed(&s);
             rep.evaluations += 3;
@@ -665,7 +668,7 @@ pub fn cmd_sweep_c13(args: &[String]) {
         let (im, sod) = x25519base(&sk);
         compare(&mut rep, "public key from secret key", im, &[("libsodium", sod.as_ref())], json!({"i": i}));
         // kx and signing key pairs from 32-byte seeds
-        let s: [u8; 32] = rng.arr();
+        let s: [u8; 32] = match i { 0 => [0u8; 32], 1 => [0xffu8; 32], 2 => { let mut z = [0u8; 32]; z[31] = 1; z }, _ => rng.arr() };
         rep.case(&format!("seed32|{}", hex(&s)));
         let (mut p2, mut s2) = ([0u8; 32], [0u8; 32]);
         unsafe { so::crypto_kx_seed_keypair(p2.as_mut_ptr(), s2.as_mut_ptr(), s.as_ptr()) };
@@ -682,6 +685,21 @@ pub fn cmd_sweep_c13(args: &[String]) {
             // in-place and per-curve entry points, into buffers that are not zero beforehand
             let (mut ip, mut isk) = ([0xA5u8; 32], [0x5Au8; 64]);
             csg::crypto_sign_seed_keypair_inplace(&mut ip, &mut isk, &s);
+            // buffers left over from an earlier derivation: the seed half in place, the public half stale or zero
+            for stale in [[0u8; 32], [0x77u8; 32], ep] {
+                let (mut jp, mut jsk) = ([0u8; 32], [0u8; 64]);
+                jsk[..32].copy_from_slice(&s); jsk[32..].copy_from_slice(&stale); jp = stale;
+                csg::crypto_sign_seed_keypair_inplace(&mut jp, &mut jsk, &s);
+                rep.evaluations += 1;
+                if jp != ep || jsk != esk { rep.fail("crypto_sign_seed_keypair_inplace into preloaded buffers differs from libsodium", json!({"i": i, "stale_public_half": hex(&stale)})); }
+            }
+            // a stored secret key whose public half is not the public key of its seed: the pair is recomputed from the seed
+            for stale in [[0u8; 32], [0x77u8; 32]] {
+                let mut bad = esk; bad[32..].copy_from_slice(&stale);
+                let kp: dryoc::sign::SigningKeyPair<StackByteArray<32>, StackByteArray<64>> = dryoc::sign::SigningKeyPair::from_secret_key(StackByteArray::from(&bad));
+                rep.evaluations += 1;
+                if kp.public_key.as_slice() != ep || kp.secret_key.as_slice() != esk { rep.fail("SigningKeyPair::from_secret_key: pair not recomputed from the seed half", json!({"i": i, "stale_public_half": hex(&stale)})); }
+            }
             rep.evaluations += 1;
             if ip != ep || isk != esk { rep.fail("crypto_sign_seed_keypair_inplace differs from libsodium", json!({"i": i})); }
             // the key pair object over other containers
